@@ -111,8 +111,16 @@ def join(a, b):
     return "U"
 
 
+TREE_MUTATORS = {"append", "extend", "insert", "remove", "pop", "clear", "sort", "reverse", "update", "setdefault",
+                 "popitem", "add", "discard", "__setitem__", "__delitem__"}
+
+
 class Analysis:
-    def __init__(self, index: Index, allow=None):
+    def __init__(self, index: Index, allow=None, mode="graph", mutators=None):
+        """mode 'graph': regions follow graphs/stores (C13, C12); mode 'tree': region I marks the prepared query's
+        algebra tree (CompValue / lists / dicts reachable from it) and the mutators are container/attribute writes (C15)"""
+        self.mode = mode
+        self.mutators = mutators if mutators is not None else (MUTATORS if mode == "graph" else TREE_MUTATORS)
         self.ix = index
         self.memo = {}
         self.sites = []            # failing obligations
@@ -141,6 +149,11 @@ class Analysis:
             return env.get(e.id, "N" if e.id in ("None", "True", "False") else env.get("*global*", "N"))
         if isinstance(e, ast.Constant):
             return "N"
+        if isinstance(e, ast.Attribute) and self.mode == "tree":
+            base = self.ev(e.value, env, cls)
+            if isinstance(e.value, ast.Name) and e.value.id == "self" and cls and "self." + e.attr in env:
+                return env["self." + e.attr]
+            return base if base in ("I", "U") else "N"
         if isinstance(e, ast.Attribute):
             base = self.ev(e.value, env, cls)
             if isinstance(e.value, ast.Name) and e.value.id == "self" and cls:
@@ -187,6 +200,13 @@ class Analysis:
 
     def elem_region(self, it, env, cls):
         """region of the elements produced by iterating `it`"""
+        if self.mode == "tree":
+            r = self.ev(it, env, cls)
+            if isinstance(it, ast.Call) and isinstance(it.func, ast.Name) and it.func.id in ("reversed", "list", "sorted", "enumerate", "zip"):
+                r = "N"
+                for a in it.args:
+                    r = join(r, self.ev(a, env, cls))
+            return r
         if isinstance(it, ast.Call) and isinstance(it.func, ast.Attribute) and it.func.attr in (
                 "graphs", "contexts", "get_context", "get_graph"):
             return self.ev(it.func.value, env, cls)
@@ -227,8 +247,16 @@ class Analysis:
             self.call_targets(e, f, recv, args, kw, env, cls)
             return recv         # a collection of graphs of the receiver
         # mutator obligation
-        if isinstance(f, ast.Attribute) and f.attr in MUTATORS:
+        if isinstance(f, ast.Attribute) and f.attr in self.mutators:
             self.obligation(e, f.attr, recv, ast.unparse(f.value), cls)
+        if self.mode == "tree":
+            callee_regions = self.call_targets(e, f, recv, args, kw, env, cls)
+            if isinstance(f, ast.Attribute) and f.attr in ("get", "__getitem__", "items", "values", "keys", "copy") and recv in ("I", "U"):
+                return recv if f.attr != "copy" else "N"
+            r = "N"
+            for x in callee_regions:
+                r = join(r, x)
+            return r
         # interprocedural step
         callee_regions = self.call_targets(e, f, recv, args, kw, env, cls)
         # result region
@@ -308,9 +336,21 @@ class Analysis:
                 q = self.ix.resolve_method(tcls, mname)
                 if q:
                     targets.append((q, recv if recv in ("I", "U") else "F", args, kw))
+            elif self.mode == "tree":
+                tree_arg = any(a in ("I", "U") for a in list(args) + list(kw.values()))
+                if tree_arg and recv not in ("I", "U") and mname not in TREE_MUTATORS:
+                    # the tree is handed to a method of a helper object (bindings, context): by name in the engine
+                    for q in self.ix.by_method.get(mname, []):
+                        if "plugins/sparql" in self.ix.funcs[q][0]:
+                            targets.append((q, "N", args, kw))
+                if recv in ("I", "U") and mname not in TREE_MUTATORS:
+                    for q in self.ix.by_method.get(mname, []):
+                        c = q.split(".")[0]
+                        if c in ("CompValue", "Expr", "Query", "Prologue", "Update") or "CompValue" in self.ix.mro(c):
+                            targets.append((q, recv, args, kw))
             else:
                 # obj.m(): by method name over graph/store/evaluator classes when the receiver is a graph region
-                if recv in ("I", "U", "F") and mname not in MUTATORS:
+                if recv in ("I", "U", "F") and mname not in self.mutators:
                     for q in self.ix.by_method.get(mname, []):
                         c = q.split(".")[0]
                         if c in GRAPH_CLASSES or c in STORE_CLASSES:
@@ -431,6 +471,9 @@ class Analysis:
                         env["type:" + t.id] = ctor
                     else:
                         env.pop("type:" + t.id, None)
+                elif isinstance(t, ast.Attribute) and isinstance(t.value, ast.Name) and t.value.id == "self" and cls \
+                        and self.mode == "tree" and env.get("self") in ("I", "U"):
+                    self.obligation(n, "setattr:" + t.attr, env.get("self"), "self", cls)
                 elif isinstance(t, ast.Attribute) and isinstance(t.value, ast.Name) and t.value.id == "self" and cls:
                     k = (cls, t.attr)
                     self.fields[k] = join(self.fields.get(k, r), r)     # what other methods may see
@@ -439,8 +482,15 @@ class Analysis:
                         self.field_types[k] = ctor
                 elif isinstance(t, ast.Attribute):
                     br = self.ev(t.value, env, cls)
-                    if br in ("I",) and t.attr in ("default_context", "default_graph", "_default_context", "store"):
+                    if self.mode == "tree":
+                        if br in ("I", "U"):
+                            self.obligation(n, "setattr:" + t.attr, br, ast.unparse(t.value), cls)
+                    elif br in ("I",) and t.attr in ("default_context", "default_graph", "_default_context", "store"):
                         self.obligation(n, "setattr:" + t.attr, br, ast.unparse(t.value), cls)
+                elif isinstance(t, ast.Subscript) and self.mode == "tree":
+                    br = self.ev(t.value, env, cls)
+                    if br in ("I", "U"):
+                        self.obligation(n, "__setitem__", br, ast.unparse(t.value), cls)
                 elif isinstance(t, (ast.Tuple, ast.List)):
                     for x in t.elts:
                         self.bind_target(x, r, env, strong=True)
@@ -448,8 +498,13 @@ class Analysis:
         if isinstance(n, ast.AugAssign):
             tr = self.ev(n.target, env, cls)
             vr = self.ev(n.value, env, cls)
-            if isinstance(n.op, (ast.Add, ast.Sub)) and tr in ("I", "U") and vr != "N":
-                self.obligation(n, "__iadd__" if isinstance(n.op, ast.Add) else "__isub__", tr, ast.unparse(n.target), cls)
+            if self.mode == "tree":
+                if isinstance(n.target, (ast.Attribute, ast.Subscript)) and self.ev(n.target.value, env, cls) in ("I", "U"):
+                    self.obligation(n, "augassign", "I", ast.unparse(n.target), cls)
+            elif isinstance(n.op, (ast.Add, ast.Sub)) and tr in ("I", "U") and vr != "N":
+                nm = "__iadd__" if isinstance(n.op, ast.Add) else "__isub__"
+                if nm in self.mutators:
+                    self.obligation(n, nm, tr, ast.unparse(n.target), cls)
             return env
         if isinstance(n, (ast.For, ast.AsyncFor)):
             self.ev(n.iter, env, cls)
@@ -487,6 +542,11 @@ class Analysis:
             for o in outs[1:]:
                 e = self.join_env(e, o)
             return self.exec_block(n.finalbody, e, cls)
+        if isinstance(n, ast.Delete) and self.mode == "tree":
+            for t in n.targets:
+                if isinstance(t, (ast.Subscript, ast.Attribute)) and self.ev(t.value, env, cls) in ("I", "U"):
+                    self.obligation(n, "__delitem__", "I", ast.unparse(t.value), cls)
+            return env
         if isinstance(n, ast.Return):
             if n.value is not None:
                 self._ret = join(self._ret, self.ev(n.value, env, cls))
